@@ -25,6 +25,85 @@ fn main() {
         std::fs::write(dir.join("empty.osu"), b"").unwrap();
         return;
     }
+    if args[0] == "gen-tapes" {
+        // pseudo-random generator tapes as seeds of the `tape` fuzz target: check gen-tapes <dir> <n>
+        let dir = std::path::PathBuf::from(&args[1]);
+        let n: u32 = args.get(2).and_then(|s| s.parse().ok()).unwrap_or(200);
+        std::fs::create_dir_all(&dir).unwrap();
+        for i in 0..n {
+            let len = 40 + (i as usize * 37) % 1200;
+            let mut x = 0x9E3779B97F4A7C15u64 ^ (i as u64).wrapping_mul(0xD1B54A32D192ED03);
+            let tape: Vec<u8> = (0..len)
+                .map(|_| {
+                    x ^= x << 13;
+                    x ^= x >> 7;
+                    x ^= x << 17;
+                    // a third of the bytes small (the tape maps 0 to the simplest choice)
+                    if x & 3 == 0 { (x >> 8) as u8 & 0x1f } else { (x >> 8) as u8 }
+                })
+                .collect();
+            std::fs::write(dir.join(format!("tape-{i:04}")), &tape).unwrap();
+        }
+        std::fs::write(dir.join("empty"), b"").unwrap();
+        std::fs::write(dir.join("zeros"), vec![0u8; 64]).unwrap();
+        return;
+    }
+    if args[0] == "gdomain" {
+        // share of a grammar-fuzz corpus inside the line-level domain: check gdomain <ID> <dir>  (prints "in out")
+        let id = args[1].to_uppercase();
+        let (mut inn, mut out) = (0u64, 0u64);
+        for e in std::fs::read_dir(&args[2]).unwrap() {
+            let data = std::fs::read(e.unwrap().path()).unwrap();
+            if data.len() < 3 {
+                continue;
+            }
+            let text = String::from_utf8_lossy(&data[3..]).into_owned();
+            let r = match id.as_str() {
+                "C11" => rosu_verif::props::c11::fuzz_text(&text).ok(),
+                "C12" => rosu_verif::props::c12::fuzz_domain([data[0], data[1], data[2]], &text),
+                _ => rosu_verif::props::c14::fuzz_text(&text).ok(),
+            };
+            match r {
+                Some(true) => inn += 1,
+                Some(false) => out += 1,
+                None => {}
+            }
+        }
+        println!("{inn} {out}");
+        return;
+    }
+    if args[0] == "gen-gtext" {
+        // generated seeds of the `grammar` fuzz target: check gen-gtext <dir> <ID> <n>
+        let dir = std::path::PathBuf::from(&args[1]);
+        let id = args[2].to_uppercase();
+        let n: u32 = args.get(3).and_then(|s| s.parse().ok()).unwrap_or(200);
+        std::fs::create_dir_all(&dir).unwrap();
+        for i in 0..n {
+            let mut x = 0x9E3779B97F4A7C15u64 ^ (i as u64).wrapping_mul(0xD1B54A32D192ED03);
+            let tape: Vec<u8> = (0..600)
+                .map(|_| {
+                    x ^= x << 13;
+                    x ^= x >> 7;
+                    x ^= x << 17;
+                    if x & 3 == 0 { (x >> 8) as u8 & 0x1f } else { (x >> 8) as u8 }
+                })
+                .collect();
+            let mut t = Tape::new(&tape);
+            let body = match id.as_str() {
+                "C11" => {
+                    let text = rosu_verif::props::c11::gen_case(&mut t).text();
+                    text.split_once('\n').map(|x| x.1.to_string()).unwrap_or_default()
+                }
+                "C12" => rosu_verif::props::c12::gen_case(&mut t, false).lines.join("\n"),
+                _ => rosu_verif::props::c14::gen_lines(&mut t).join("\n"),
+            };
+            let mut out = vec![(i % 4) as u8, (i / 4 % 6) as u8, (i / 24 % 5) as u8];
+            out.extend_from_slice(body.as_bytes());
+            std::fs::write(dir.join(format!("g-{i:04}")), &out).unwrap();
+        }
+        std::fs::write(dir.join("empty"), b"").unwrap();
+        return;
+    }
     let id = args[0].to_uppercase();
     let Some((id, run, replay)) = props::registry(&id) else {
         eprintln!("unknown property {id}");
@@ -45,7 +124,15 @@ fn main() {
         });
         let ext = ext_of(std::path::Path::new(path));
         let mut ctx = Ctx::new(id, Tier::Quick, seed);
-        let res = std::panic::catch_unwind(std::panic::AssertUnwindSafe(|| replay(&mut ctx, &ext, &bytes)));
+        let res = std::panic::catch_unwind(std::panic::AssertUnwindSafe(|| {
+            if ext == "ftape" {
+                props::replay_ftape(id, &mut ctx, &bytes)
+            } else if ext == "gtext" {
+                props::replay_gtext(id, &mut ctx, &bytes)
+            } else {
+                replay(&mut ctx, &ext, &bytes)
+            }
+        }));
         match res {
             Ok(Ok(None)) => {
                 println!("replay {path}: property {id} holds on this case");
